@@ -6,28 +6,24 @@ From MWF Require Import Base.Util Base.UtilLemmas Exec.ExecBase Exec.ExecGen Exe
 (** * Coupling between the state and the ledger.
     [P x]: a terminal report for [x] has been delivered to the ledger but not yet
     processed by the state; [Q x]: likewise a FINISHED report. *)
-Record J (d : bool) (P Q : nat -> Prop) (s : st) (L : base) : Prop := {
+Record JL (P : nat -> Prop) (s : st) (L : base) : Prop := {
   j_live : forall x j, In (x, j) (live L) <-> In x (inprog s) /\ j = lastjob s x /\ ~ P x;
   j_nd : NoDup (map fst (live L));
+  j_cseen : cseen L = canceled s }.
+
+(** [d] = dry-run mode: nothing is ever submitted, the ledger's [succ] stays empty *)
+Record JS (d : bool) (Q : nat -> Prop) (s : st) (L : base) : Prop := {
   j_succ1 : d = false -> forall x, In x (completed s) -> In x (succ L);
   j_succ2 : forall x, In x (succ L) -> In x (completed s) \/ Q x;
   j_succ3 : forall x, Q x -> In x (succ L);
-  j_cseen : cseen L = canceled s;
   j_dry : d = true -> succ L = [] }.
+
+Definition J (d : bool) (P Q : nat -> Prop) (s : st) (L : base) : Prop := JL P s L /\ JS d Q s L.
 
 Definition tpend (rs : list (nat * option State)) (x : nat) : Prop :=
   exists v, In (x, Some v) rs /\ terminal v = true.
 Definition pfin (rs : list (nat * option State)) (x : nat) : Prop := In (x, Some FINISHED) rs.
 Definition none (_ : nat) : Prop := False.
-
-Lemma J_ext d (P Q P' Q' : nat -> Prop) s L :
-  (forall x, P x <-> P' x) -> (forall x, Q x <-> Q' x) -> J d P Q s L -> J d P' Q' s L.
-Proof.
-  intros HP HQ [A B C D E F G]. constructor; auto.
-  - intros x j. rewrite A, HP. tauto.
-  - intros x Hx. destruct (D x Hx); auto. right. apply HQ. assumption.
-  - intros x Hx. apply E, HQ, Hx.
-Qed.
 
 (** the coupling only reads the in-progress set, the latest job of its members,
     the completed set and the cancel flag of the state, and the three core
@@ -39,16 +35,94 @@ Proof. unfold core_eq. intuition congruence. Qed.
 Lemma core_eq_sym A B : core_eq A B -> core_eq B A.
 Proof. unfold core_eq. intuition congruence. Qed.
 
-Lemma J_frame d P Q s s' L :
-  inprog s' = inprog s -> completed s' = completed s -> canceled s' = canceled s ->
-  (forall y, In y (inprog s) -> lastjob s' y = lastjob s y) -> J d P Q s L -> J d P Q s' L.
+Lemma JL_ext (P P' : nat -> Prop) s L :
+  (forall x, In x (inprog s) -> (P x <-> P' x)) -> JL P s L -> JL P' s L.
 Proof.
-  intros E1 E2 E3 E4 [A B C D E F G]. constructor; rewrite ?E1, ?E2, ?E3; auto.
-  intros x j. rewrite A. split; intros (H1 & H2 & H3); splits; auto; rewrite H2; [symmetry|]; auto.
+  intros HP [A B C]. constructor; auto.
+  intros x j. rewrite A. split; intros (H1 & H2 & H3); repeat split; auto; intros H; apply H3, (HP x H1), H.
 Qed.
 
-Lemma J_core d P Q s L L' : core_eq L L' -> J d P Q s L -> J d P Q s L'.
-Proof. intros (E1 & E2 & E3) [A B C D E F G]. constructor; rewrite ?E1, ?E2, ?E3; auto. Qed.
+Lemma JS_ext d (Q Q' : nat -> Prop) s L : (forall x, Q x <-> Q' x) -> JS d Q s L -> JS d Q' s L.
+Proof.
+  intros HQ [A B C D]. constructor; auto.
+  - intros x Hx. destruct (B x Hx); auto. right. apply HQ. assumption.
+  - intros x Hx. apply C, HQ, Hx.
+Qed.
+
+(** generic transitions of the live part *)
+Lemma JL_frame P s s' L L' :
+  (forall y, In y (inprog s') <-> In y (inprog s)) -> canceled s' = canceled s ->
+  (forall y, In y (inprog s) -> lastjob s' y = lastjob s y) ->
+  live L' = live L -> cseen L' = cseen L -> JL P s L -> JL P s' L'.
+Proof.
+  intros E1 E3 E4 E5 E6 [A B C]. constructor; rewrite ?E3, ?E5, ?E6; auto.
+  intros x j. rewrite A, E1. split; intros (H1 & H2 & H3); repeat split; auto; rewrite H2; [symmetry|]; auto.
+Qed.
+
+Lemma JL_remove P x s s' L L' :
+  (forall y, In y (inprog s') <-> y <> x /\ In y (inprog s)) -> canceled s' = canceled s ->
+  (forall y, y <> x -> lastjob s' y = lastjob s y) ->
+  live L' = live L -> cseen L' = cseen L -> JL (fun y => y = x \/ P y) s L -> JL P s' L'.
+Proof.
+  intros E1 E3 E4 E5 E6 [A B C]. constructor; rewrite ?E3, ?E5, ?E6; auto.
+  intros y j. rewrite A, E1. split.
+  - intros (H1 & H2 & H3). assert (y <> x) by tauto. rewrite E4 by auto. tauto.
+  - intros ((H0 & H1) & H2 & H3). rewrite E4 in H2 by auto. tauto.
+Qed.
+
+Lemma JL_add P x s s' L L' :
+  (forall y, In y (inprog s') <-> y = x \/ In y (inprog s)) -> canceled s' = canceled s ->
+  (forall y, y <> x -> lastjob s' y = lastjob s y) -> ~ P x ->
+  live L' = live L ++ [(x, lastjob s' x)] -> cseen L' = cseen L ->
+  JL (fun y => y = x \/ P y) s L -> JL P s' L'.
+Proof.
+  intros E1 E3 E4 HP E5 E6 [A B C]. constructor; rewrite ?E3, ?E5, ?E6; auto.
+  - intros y j. rewrite in_app_iff, A, E1. cbn [In]. split.
+    + intros [(H1 & H2 & H3)|[H|[]]].
+      * assert (y <> x) by tauto. rewrite E4 by auto. tauto.
+      * inversion H; subst. tauto.
+    + intros (H1 & H2 & H3). destruct (Nat.eq_dec y x) as [->|Hn].
+      * right. left. congruence.
+      * left. rewrite E4 in H2 by auto. tauto.
+  - rewrite map_app. cbn [map fst]. apply NoDup_snoc; auto.
+    intros Hi. apply in_map_iff in Hi. destruct Hi as [[a b] [E Hi]]. cbn in E. subst a.
+    apply A in Hi. tauto.
+Qed.
+
+(** generic transitions of the success part *)
+Lemma JS_frame d Q s s' L L' :
+  (forall y, In y (completed s') <-> In y (completed s)) -> succ L' = succ L -> JS d Q s L -> JS d Q s' L'.
+Proof.
+  intros E1 E2 [A B C D]. constructor; rewrite ?E2; auto.
+  - intros Hd y Hy. apply A; auto. apply E1, Hy.
+  - intros y Hy. destruct (B y Hy); auto. left. apply E1. assumption.
+Qed.
+
+Lemma JS_finish d Q x s s' L L' :
+  (forall y, In y (completed s') <-> y = x \/ In y (completed s)) -> succ L' = succ L ->
+  JS d (fun y => y = x \/ Q y) s L -> JS d Q s' L'.
+Proof.
+  intros E1 E2 [A B C D]. constructor; rewrite ?E2; auto.
+  - intros Hd y Hy. apply E1 in Hy. destruct Hy as [->|Hy]; auto.
+  - intros y Hy. rewrite E1. destruct (B y Hy) as [H|[H|H]]; auto.
+Qed.
+
+Lemma JS_local Q x s s' L L' :
+  (forall y, In y (completed s') <-> y = x \/ In y (completed s)) ->
+  (forall y, In y (succ L') <-> y = x \/ In y (succ L)) ->
+  JS false Q s L -> JS false Q s' L'.
+Proof.
+  intros E1 E2 [A B C D]. constructor; try discriminate.
+  - intros _ y Hy. apply E2. apply E1 in Hy. destruct Hy; auto.
+  - intros y Hy. apply E2 in Hy. rewrite E1. destruct Hy as [->|Hy]; auto. destruct (B y Hy); auto.
+  - intros y Hy. apply E2. auto.
+Qed.
+
+Lemma JS_dry Q s s' L L' : succ L' = succ L -> JS true Q s L -> JS true Q s' L'.
+Proof.
+  intros E2 [A B C D]. constructor; rewrite ?E2; auto; try discriminate.
+  intros y Hy. rewrite D in Hy by reflexivity. destruct Hy.
+Qed.
 
 (** * Per-event conditions that keep the verdict codes 1, 3, 4, 40, 41, 7, 71 silent *)
 Definition evA (c : cfg) (g : graph) (L : base) (e : event) : Prop :=
@@ -343,3 +417,191 @@ Proof.
     apply existsb_exists in E. destruct E as [[a b] [Hi E]]. cbn in E. apply Nat.eqb_eq in E. subst a.
     exfalso. apply H. apply in_map_iff. exists (x, b). auto.
 Qed.
+
+(** * _execute_record *)
+Section Poll3.
+Variables (c : cfg) (g : graph) (p : pin) (L0 : base).
+Notation ledS := (led c g p L0).
+Notation cleanS := (clean c g p L0).
+Hypothesis W : WF g.
+
+Lemma live_bound P x s L : JL (fun y => y = x \/ P y) s L ->
+  length (live L) <= length (srem x (inprog s)).
+Proof.
+  intros [JA JB JC]. rewrite <- (map_length fst). apply NoDup_incl_length_le; [exact JB|].
+  intros y Hy. apply in_map_iff in Hy. destruct Hy as [[a b] [E Hi]]. cbn in E. subst a.
+  apply JA in Hi. destruct Hi as (H1 & H2 & H3). apply In_srem. split; auto.
+Qed.
+
+Definition exec_pre (d : bool) (P Q : nat -> Prop) (x : nat) (restart : bool) (s : st) : Prop :=
+  Inv g s /\ cleanS s /\ x < length g /\
+  ~ In x (completed s) /\ ~ In x (ready s) /\ ~ In x (failed s) /\ ~ In x (cancelled s) /\
+  incl (parents (attr g x)) (completed s) /\
+  (if restart then In x (inprog s) /\ d = false else ~ In x (inprog s)) /\
+  (throttle c > 0 -> S (length (srem x (inprog s))) <= throttle c) /\
+  canceled s = false /\ ~ P x /\ ~ Q x /\
+  JL (fun y => y = x \/ P y) s (ledS s) /\ JS d Q s (ledS s).
+
+Lemma exec_pre_frame d P Q x restart s s0 :
+  same_sets s s0 -> recs s0 = recs s -> ledS s0 = ledS s -> cleanS s0 ->
+  exec_pre d P Q x restart s -> exec_pre d P Q x restart s0.
+Proof.
+  intros SS ER EL C0 (I & Cl & Hx & H1 & H2 & H3 & H4 & H5 & H6 & H7 & H8 & H9 & H10 & Jl & Js).
+  pose proof SS as (E1 & E2 & E3 & E4 & E5 & E6 & E7).
+  unfold exec_pre. rewrite E1, E2, E3, E4, E5, E7, EL.
+  split. { eapply Inv_same; [exact SS| |exact I]. split; [rewrite ER; reflexivity|].
+           intros y. unfold getrec. rewrite ER. auto. }
+  repeat (split; [assumption|]). split.
+  - eapply JL_frame; [| | | | |exact Jl]; auto.
+    + intros y. rewrite E2. tauto.
+    + intros y _. unfold lastjob, getrec. rewrite ER. reflexivity.
+  - eapply JS_frame; [| |exact Js]; auto. intros y. rewrite E1. tauto.
+Qed.
+
+Lemma execute_record_spec d P Q x restart s :
+  dry c = d -> exec_pre d P Q x restart s ->
+  let s' := execute_record_gen c g x restart s in
+  Inv g s' /\ cleanS s' /\ J d P Q s' (ledS s') /\ canceled s' = false /\ ready s' = ready s /\
+  length (inprog s') <= S (length (srem x (inprog s))) /\
+  (forall y, tracked s' y -> y = x \/ tracked s y) /\
+  (forall y, y <> x -> (In y (inprog s') <-> In y (inprog s))).
+Proof.
+  intros Hd Pre. unfold execute_record_gen.
+  set (s0 := if negb restart then emit (EGen x) s else s).
+  assert (F0 : same_sets s s0 /\ recs s0 = recs s /\ ledS s0 = ledS s /\ cleanS s0).
+  { destruct Pre as (_ & Cl & _). subst s0. destruct restart; cbn [negb].
+    - repeat split; auto.
+    - split; [repeat split|]. split; [reflexivity|]. split; [rewrite led_emit; reflexivity|].
+      apply clean_emit. split; [exact Cl|exact I]. }
+  destruct F0 as (SS0 & ER0 & EL0 & C0).
+  assert (Pre0 := exec_pre_frame d P Q x restart s s0 SS0 ER0 EL0 C0 Pre).
+  assert (TR0 : forall y, tracked s0 y -> tracked s y).
+  { destruct SS0 as (E1 & E2 & E3 & _). unfold tracked. rewrite E1, E2, E3. auto. }
+  assert (RD0 : ready s0 = ready s) by apply SS0.
+  assert (IP0 : inprog s0 = inprog s) by apply SS0.
+  rewrite <- RD0, <- IP0.
+  assert (G : let s' := (if dry c
+     then let s1 := rec_set_status x DRYRUN s0 in let s2 := completed_add x s1 in s2
+     else let '(ok, s1) := submit_attempts g x restart (attempts c) s0 in
+       if ok then let s2 := inprog_add x s1 in
+         if negb (scheduled (attr g x))
+         then let s3 := rec_set_status x FINISHED s2 in let s4 := completed_add x s3 in let s5 := inprog_remove x s4 in s5
+         else s2
+       else let s2 := inprog_remove x s1 in let s3 := mark_failed_list (bfs_subtree g x) s2 in s3) in
+     Inv g s' /\ cleanS s' /\ J d P Q s' (ledS s') /\ canceled s' = false /\ ready s' = ready s0 /\
+     length (inprog s') <= S (length (srem x (inprog s0))) /\
+     (forall y, tracked s' y -> y = x \/ tracked s0 y) /\
+     (forall y, y <> x -> (In y (inprog s') <-> In y (inprog s0)))).
+  2:{ cbv zeta in G. destruct G as (G1 & G2 & G3 & G4 & G5 & G6 & G7 & G8). repeat (split; [assumption|]).
+      split; [|exact G8]. intros y Hy. destruct (G7 y Hy); auto. }
+  clearbody s0. clear Pre SS0 ER0 EL0 C0 TR0 RD0 IP0 s. rename s0 into s. cbv zeta.
+  destruct Pre0 as (I & Cl & Hx & H1 & H2 & H3 & H4 & H5 & H6 & H7 & H8 & H9 & H10 & Jl & Js).
+  pose proof (i_len_recs g s I) as LR.
+  pose proof (i_nd_inprog g s I) as ND.
+  destruct (dry c) eqn:Hdry.
+  - (* dry run *)
+    subst d. assert (Hni : ~ In x (inprog s)) by (destruct restart; [destruct H6; discriminate|exact H6]).
+    split. { apply Inv_completed_add; auto. apply Inv_set_status; [discriminate|exact I]. }
+    split. { exact Cl. }
+    split. { split.
+      - eapply JL_ext; [|eapply JL_frame; [| | | | |exact Jl]]; try reflexivity.
+        + intros y Hy. cbn in Hy. split; [intros [->|H]; tauto|tauto].
+        + intros y _. change (lastjob (rec_set_status x DRYRUN s) y = lastjob s y). apply lastjob_set_status.
+      - eapply JS_dry; [|exact Js]. reflexivity. }
+    split; [exact H8|]. split; [reflexivity|]. split.
+    { cbn. rewrite srem_notin by auto. lia. }
+    split; [|intros y _; reflexivity].
+    intros y. unfold tracked, completed_add. sp. setsimp. tauto.
+  - subst d.
+    pose proof (live_bound P x s _ Jl) as LB.
+    assert (SP : submit_pre c g p L0 x s).
+    { unfold submit_pre. destruct Jl as [JA JB JC]. destruct Js as [SA SB SC SD].
+      split. { apply subset_incl. intros y Hy. apply SA; auto. }
+      split. { rewrite JC. exact H8. }
+      split. { apply live_of_false. intros Hi. apply in_map_iff in Hi. destruct Hi as [[a b] [E Hi]].
+               cbn in E; subst a. apply JA in Hi. tauto. }
+      split. { apply mem_false. intros Hi. destruct (SB x Hi); tauto. }
+      destruct (scheduled (attr g x)); [right|left; reflexivity].
+      destruct (throttle c) eqn:Et; [left; reflexivity|right]. specialize (H7 ltac:(lia)). lia. }
+    pose proof (submit_attempts_spec c g p L0 x restart (attempts c) s) as SA.
+    specialize (SA ltac:(lia) Cl SP).
+    destruct (submit_attempts g x restart (attempts c) s) as [ok s1].
+    destruct SA as (A1 & A2 & A3 & A4 & A5 & A6 & A7).
+    pose proof A1 as (E1 & E2 & E3 & E4 & E5 & E6 & E7).
+    assert (I1 : Inv g s1) by (eapply Inv_same; [exact A1|split; assumption|exact I]).
+    destruct ok.
+    + destruct (A7 eq_refl) as (B1 & B2 & B3). clear A6 A7.
+      assert (NI : status (getrec s1 x) <> INITIALIZED).
+      { destruct restart; [|auto]. apply A4. apply (i_init g s I). left. apply H6. }
+      assert (I2 : Inv g (inprog_add x s1)).
+      { apply Inv_inprog_add; auto; rewrite ?E1, ?E3, ?E4, ?E5; auto. }
+      destruct (scheduled (attr g x)) eqn:Hs; cbn [negb].
+      * (* scheduled: stays in progress *)
+        destruct B3 as [B3 B4].
+        split; [exact I2|]. split; [exact A3|].
+        split. { split.
+          - eapply (JL_add P x); [| | | | | |exact Jl].
+            + intros y. unfold inprog_add; sp. rewrite In_sadd, E2. tauto.
+            + cbn. rewrite E7; reflexivity.
+            + intros y Hy. change (lastjob (inprog_add x s1) y) with (lastjob s1 y). apply A5; auto.
+            + exact H9.
+            + exact B3.
+            + exact B2.
+          - eapply JS_frame; [| |exact Js].
+            + intros y. cbn. rewrite E1. tauto.
+            + exact B4. }
+        split. { cbn. rewrite E7. exact H8. }
+        split. { cbn. rewrite E3. reflexivity. }
+        split. { cbn. rewrite E2. rewrite length_sadd_srem by auto. lia. }
+        split; [|intros y Hy; unfold inprog_add; sp; rewrite In_sadd, E2; tauto].
+        intros y. unfold tracked, inprog_add; sp. rewrite In_sadd, E1, E2, E3. tauto.
+      * (* local: completed at once *)
+        destruct B3 as [B3 B4].
+        assert (Hxi : In x (inprog (inprog_add x s1))) by (unfold inprog_add; sp; apply In_sadd; auto).
+        split. { apply Inv_finish; [|exact Hxi]. apply Inv_set_status; [discriminate|exact I2]. }
+        split; [exact A3|].
+        split. { split.
+          - eapply (JL_remove P x); [| | | | |exact Jl].
+            + intros y. unfold inprog_remove, completed_add, inprog_add, rec_set_status; sp. rewrite In_srem, In_sadd, E2. tauto.
+            + cbn. rewrite E7; reflexivity.
+            + intros y Hy.
+              change (lastjob (rec_set_status x FINISHED (inprog_add x s1)) y = lastjob s y).
+              rewrite lastjob_set_status. change (lastjob s1 y = lastjob s y). apply A5; auto.
+            + exact B3.
+            + exact B2.
+          - eapply (JS_local Q x); [| |exact Js].
+            + intros y. unfold inprog_remove, completed_add, inprog_add, rec_set_status; sp. rewrite In_sadd, E1. tauto.
+            + intros y. change (In y (succ (ledS s1)) <-> y = x \/ In y (succ (ledS s))). rewrite B4, In_sadd. tauto. }
+        split. { cbn. rewrite E7. exact H8. }
+        split. { cbn. rewrite E3. reflexivity. }
+        split. { cbn. rewrite E2. etransitivity; [apply length_srem_le|]. rewrite length_sadd_srem by auto. lia. }
+        split; [|intros y Hy; unfold inprog_remove, completed_add, inprog_add, rec_set_status; sp;
+                  rewrite In_srem, In_sadd, E2; tauto].
+        intros y. unfold tracked, inprog_remove, completed_add, inprog_add, rec_set_status; sp.
+        rewrite In_srem, !In_sadd, E1, E2, E3. tauto.
+    + (* every attempt failed: the step and its sub-tree are marked failed *)
+      destruct (A6 eq_refl) as (B1 & B2). clear A6 A7.
+      pose proof (mark_failed_list_frame (bfs_subtree g x) (inprog_remove x s1)) as
+        (F1 & F2 & F3 & F4 & F5 & F6 & F7 & F8).
+      set (s3 := mark_failed_list (bfs_subtree g x) (inprog_remove x s1)) in *.
+      assert (L3 : ledS s3 = ledS s1) by (apply led_frame; exact F6).
+      split. { apply Inv_mark_failed_list; [apply Inv_inprog_remove; exact I1|].
+        intros y Hy. destruct (Nat.eq_dec y x) as [->|Hn].
+        - unfold inprog_remove; sp. rewrite In_srem, E1, E3. split; [exact Hx|]. tauto.
+        - destruct (subtree_out g s1 x y W I1 Hx ltac:(rewrite E1; exact H1) Hy Hn) as (O1 & O2 & O3 & O4).
+          unfold inprog_remove; sp. rewrite In_srem. tauto. }
+      split. { apply (clean_frame c g p L0 s1 s3); [exact F6|exact A3]. }
+      split. { rewrite L3. destruct B2 as (C1 & C2 & C3). split.
+        - eapply (JL_remove P x); [| | | | |exact Jl]; auto.
+          + intros y. rewrite F2. unfold inprog_remove; sp. rewrite In_srem, E2. tauto.
+          + rewrite F5. cbn. exact E7.
+          + intros y Hy. rewrite F8. change (lastjob s1 y = lastjob s y). apply A5; auto.
+        - eapply JS_frame; [| |exact Js]; auto. intros y. rewrite F1. cbn. rewrite E1. tauto. }
+      split. { rewrite F5. cbn. rewrite E7. exact H8. }
+      split. { rewrite F3. cbn. exact E3. }
+      split. { rewrite F2. cbn. rewrite E2. lia. }
+      split; [|intros y Hy; rewrite F2; unfold inprog_remove; sp; rewrite In_srem, E2; tauto].
+      intros y. unfold tracked. rewrite F1, F2, F3. unfold inprog_remove; sp. rewrite In_srem, E1, E2, E3. tauto.
+Qed.
+
+End Poll3.
